@@ -38,6 +38,15 @@ func NewClientServerStream(ctx context.Context) *ClientServerStream {
 }
 
 func (s *ClientServerStream) Close(err error) {
+	// like gRPC, deliver metadata given to SetHeader together with the status if the handler never sent anything
+	s.headerM.Lock()
+	select {
+	case <-s.headerC:
+	default:
+		close(s.headerC)
+	}
+	s.headerM.Unlock()
+
 	s.closeErr = err
 	close(s.serverSend)
 	s.closed()
